@@ -34,8 +34,8 @@ ASSUMPTIONS = [
     "SS.Inactive.Quiet; polling LFPS sent = Polling.LFPS",
     "a state with timeout T cycles may be occupied for T+1 cycles (counter compared after the increment)",
 ]
-BOUNDS = "BMC from reset, all inputs free: 1 kHz (12 ms = 12, 2 ms = 2 cycles) K=26 (quick) / 34 (thorough); 500 Hz (6 / 1 " \
-         "cycles) K=30 / 40; 100 Hz (2 / 1 / 36 cycles, reaches the 360 ms Polling.LFPS timeout) K=46 with the training " \
+BOUNDS = "BMC from reset, all inputs free: 1 kHz (12 ms = 12, 2 ms = 2 cycles) K=22 (quick) / 32 (thorough); 500 Hz (6 / 1 " \
+         "cycles) K=24 / 38; 1 kHz strict K=18 / 28; 100 Hz (2 / 1 / 36 cycles, reaches the 360 ms Polling.LFPS timeout) K=46 with the training " \
          "inputs quiet; loosen_requirements True (default) and False"
 OUTSIDE = "the synthetic *.Configuration.Exit states and Loopback / SS.Disabled have no timeout (nothing to check); the " \
           "360 ms timeout is only reached in a restricted layer; histories longer than K; the production frequency"
